@@ -148,8 +148,22 @@ Definition alloc_idents : list string :=
    "ToString"; "ToOwned"; "extern_crate_alloc"; "into_vec"; "concat"; "join"; "repeat"; "collect"; "BufWriter"; "BufReader"; "read_to_end";
    "read_to_string"; "CString"; "OsString"; "PathBuf"; "thread"; "spawn"; "println"; "eprintln"; "print"; "dbg"].
 
+(* every use of the standard library goes through a module that neither allocates nor holds process state:
+   core/std::{arch, ops, hash, io (Write, Result), fmt, mem, hint, default, ptr}; nothing from alloc:: *)
+Definition std_modules_allowed : list string := ["arch"; "ops"; "hash"; "io"; "fmt"; "mem"; "hint"; "default"; "ptr"].
+Definition std_items_denied : list string :=
+  ["BufWriter"; "BufReader"; "LineWriter"; "stdout"; "stderr"; "stdin"; "Read"; "Cursor"; "Error"; "format"; "take"; "replace_with"].
+Definition stdpath_ok (p : string) : bool :=
+  match split_colons p "" with
+  | root :: m :: rest => (String.eqb root "core" || String.eqb root "std") && mem_str m std_modules_allowed
+                         && disjoint rest std_items_denied
+  | _ => false
+  end.
+Definition std_use_ok (fs : list file_facts) : bool := forallb (fun f => forallb stdpath_ok (ff_stdpaths f)) fs.
+
 Definition no_alloc (fs : list file_facts) (feats deps : list (string * string)) (build_script : bool) : bool :=
   forallb (fun f => disjoint (ff_idents f) alloc_idents && disjoint (ff_macros f) alloc_idents) fs
+  && std_use_ok fs
   && match deps with [] => true | _ => false end
   && negb build_script
   && forallb (fun p => (String.eqb (fst p) "default" && String.eqb (snd p) "[""std""]") || (String.eqb (fst p) "std" && String.eqb (snd p) "[]")) feats.
@@ -163,6 +177,7 @@ Definition global_state_idents : list string :=
 Definition no_global_state (fs : list file_facts) (deps : list (string * string)) : bool :=
   forallb (fun f => match ff_statics f with [] => true | _ => false end
                     && disjoint (ff_idents f) global_state_idents && disjoint (ff_macros f) global_state_idents) fs
+  && std_use_ok fs
   && match deps with [] => true | _ => false end.
 
 (* ---------------------------------------------------------------- C07: shape of the Default impls *)
